@@ -5,6 +5,12 @@
 (*                 / keyword / literal alphabet (rendered with spaces)     *)
 (*   Mode "char" : ALL character sequences up to length L over a character *)
 (*                 class alphabet (multi-byte, BOM, control, quotes, ...)  *)
+(*   Mode "degen": nil / zero-valued PARAMETERS: every entry point called    *)
+(*                 with every combination of a proper, a nil and a zero     *)
+(*                 schema; a proper, a nil and an empty (zero-valued)       *)
+(*                 document; nil variables;                                 *)
+(*                 a nil context; a missing operation name (at least one    *)
+(*                 parameter degenerate)                                    *)
 (* Every sequence is handed as RequestString to Do / Subscribe /           *)
 (* PlanCache.Get and, when it parses, as an UNVALIDATED document to        *)
 (* ValidateDocument / PlanQuery / Execute / printer.Print.  The predicate  *)
@@ -26,11 +32,19 @@ CharAlphabet ==
 
 Alphabet == IF Mode = "tok" THEN TokAlphabet ELSE CharAlphabet
 
+DegenEntries == {"Do", "Subscribe", "ValidateDocument", "PlanQuery", "Execute", "ExecuteSubscription", "ExecutePlan",
+                 "CacheGet", "Print", "Parse"}
+DegenCases ==
+  { c \in [entry : DegenEntries, schema : {"ok", "nil", "zero"}, doc : {"ok", "nil", "empty"},
+           vars : {"ok", "nil"}, ctx : {"ok", "nil"}, op : {"", "Nope"}] :
+      c.schema # "ok" \/ c.doc # "ok" \/ c.vars # "ok" \/ c.ctx # "ok" \/ c.op # "" }
+
 VARIABLE seq
-Init == seq = <<>>
-Next == Len(seq) < L /\ \E i \in 1..Len(Alphabet) : seq' = Append(seq, Alphabet[i])
+Init == IF Mode = "degen" THEN seq \in { <<c>> : c \in DegenCases } ELSE seq = <<>>
+Next == Mode # "degen" /\ Len(seq) < L /\ \E i \in 1..Len(Alphabet) : seq' = Append(seq, Alphabet[i])
 Spec == Init /\ [][Next]_seq
 
-Emit == PrintT(<<"VEC", ToJson([mode |-> Mode, seq |-> seq])>>)
+Emit == IF Mode = "degen" THEN PrintT(<<"VEC", ToJson([mode |-> Mode, case |-> seq[1]])>>)
+        ELSE PrintT(<<"VEC", ToJson([mode |-> Mode, seq |-> seq])>>)
 ASSUME PrintT(<<"SCHEMA", ToJson(S1)>>)
 =============================================================================
